@@ -222,9 +222,15 @@ impl Index for HnswIndex {
         let tombstones = self.tombstones.read();
         let n_tomb = tombstones.len();
 
-        // For Manhattan, request more candidates since L2 ordering != L1 ordering.
-        // Reranking from a larger candidate set improves recall.
-        let search_k = (if is_manhattan { k * 4 } else { k }).saturating_add(n_tomb);
+        // For Manhattan, request more candidates since L2 ordering != L1 ordering:
+        // rerank everything the search breadth collects (and at least 4k), otherwise the
+        // L1-nearest vector can be missing even from an index smaller than the breadth.
+        let search_k = (if is_manhattan {
+            (k * 4).max(ef_search)
+        } else {
+            k
+        })
+        .saturating_add(n_tomb);
         let raw_results =
             inner
                 .hnsw
